@@ -29,14 +29,18 @@ SAM = {0: (1, 1), 1: (0, 1), 2: (1, 0), 3: (1, 0), 4: (0, 1), 5: (0, 0), 6: (0, 
 OPNAME = "MIDNSHP=X"
 
 
-def _eval_op_test(test, opvar, k):
-    """Evaluate a test that only depends on the operator variable; None if it depends on more."""
+def _eval_op_test(test, opvar, k, consts=None):
+    """Evaluate a test that only depends on the operator variable (and on locals whose value is a known constant for this
+    operator, e.g. flags taken from a per-operator table); None if it depends on more."""
+    consts = consts or {}
     names = {n.id for n in ast.walk(test) if isinstance(n, ast.Name)}
-    if names - {opvar}:
+    if names - {opvar} - set(consts):
         return None
     try:
         code = compile(ast.Expression(body=test), "<op>", "eval")
-        return bool(eval(code, {"__builtins__": {}}, {opvar: k}))
+        env = dict(consts)
+        env[opvar] = k
+        return bool(eval(code, {"__builtins__": {}}, env))
     except Exception:
         return None
 
@@ -51,6 +55,29 @@ class Walk:
         self.tracked = set(tracked)
         self.flags = set()
         self.unknown = False
+        self.consts = {}  # locals with a known constant value for this operator
+        self.tables = {}  # module-level {operator: tuple} literals, set by the caller
+
+    def table_entry(self, e):
+        """TABLE[op] / TABLE.get(op) for a module-level dict literal keyed by operator codes: the entry (an AST node), the
+        string 'missing', or None if `e` is no such lookup."""
+        key = None
+        if isinstance(e, ast.Subscript) and isinstance(e.value, ast.Name) and e.value.id in self.tables and u(e.slice) == self.opvar:
+            tab, key = self.tables[e.value.id], self.k
+        elif isinstance(e, ast.Call) and isinstance(e.func, ast.Attribute) and e.func.attr == "get" and isinstance(e.func.value, ast.Name) and e.func.value.id in self.tables and len(e.args) == 1 and u(e.args[0]) == self.opvar:
+            tab, key = self.tables[e.func.value.id], self.k
+        if key is None:
+            return None
+        return tab.get(key, "missing")
+
+    def bind_const(self, target, value_node):
+        if isinstance(target, ast.Name):
+            if isinstance(value_node, ast.Constant):
+                self.consts[target.id] = value_node.value
+            else:
+                self.consts.pop(target.id, None)
+                self.sym = getattr(self, "sym", {})
+                self.sym[target.id] = value_node
 
     def lin(self, e):
         lf = linear(e)
@@ -84,8 +111,47 @@ class Walk:
         return False
 
     def stmt(self, s):
+        if isinstance(s, ast.AnnAssign) and s.value is not None and isinstance(s.target, ast.Name):
+            s = ast.copy_location(ast.Assign(targets=[s.target], value=s.value, type_comment=None), s)
+        # per-operator table lookups: entry = TABLE.get(op) ; a, b, c = entry / TABLE[op]
+        if isinstance(s, ast.Assign) and len(s.targets) == 1:
+            ent = self.table_entry(s.value)
+            src = s.value
+            if ent is None and isinstance(src, ast.Name) and src.id in getattr(self, "entries", {}):
+                ent = self.entries[src.id]
+            if ent is not None:
+                t0 = s.targets[0]
+                if isinstance(t0, ast.Name):
+                    self.entries = getattr(self, "entries", {})
+                    self.entries[t0.id] = ent
+                    self.consts[t0.id] = None if ent == "missing" else True  # truthiness / `is None` tests
+                    if ent != "missing":
+                        self.consts[t0.id] = ("entry",)
+                    return "next"
+                if isinstance(t0, ast.Tuple) and ent != "missing" and isinstance(ent, ast.Tuple) and len(ent.elts) == len(t0.elts):
+                    for t_, v_ in zip(t0.elts, ent.elts):
+                        self.bind_const(t_, v_)
+                    return "next"
+                if ent == "missing" and isinstance(s.value, ast.Subscript):
+                    self.flags.add("reject")
+                    return "raise"
         if isinstance(s, ast.If):
-            v = _eval_op_test(s.test, self.opvar, self.k)
+            test = s.test
+            if self.tables:
+                me = self
+
+                class _T(ast.NodeTransformer):
+                    def generic_visit(self, node):
+                        ent = me.table_entry(node) if isinstance(node, (ast.Subscript, ast.Call)) else None
+                        if ent is not None:
+                            return ast.copy_location(ast.Constant(value=None if ent == "missing" else ("entry",)), node)
+                        return super().generic_visit(node)
+
+                import copy as _copy
+
+                test = _T().visit(_copy.deepcopy(s.test))
+                ast.fix_missing_locations(test)
+            v = _eval_op_test(test, self.opvar, self.k, self.consts)
             if v is True:
                 return self.run(s.body)
             if v is False:
@@ -106,6 +172,15 @@ class Walk:
                 self.unknown = True
             else:
                 self.state[s.targets[0].id] = lf
+            return "next"
+        if isinstance(s, ast.Assign) and len(s.targets) == 1 and isinstance(s.targets[0], ast.Name) and s.targets[0].id not in self.tracked and s.targets[0].id != self.opvar:
+            # an auxiliary local (`ref_end = ref_pos + length`): remembered when it is linear in what is known
+            lf = self.lin(s.value)
+            if lf is not None and not any(isinstance(x, ast.Call) for x in ast.walk(s.value)):
+                self.state[s.targets[0].id] = lf
+            else:
+                self.state.pop(s.targets[0].id, None)
+            self.scan_flags(s)
             return "next"
         if isinstance(s, ast.Assign) and len(s.targets) == 1 and isinstance(s.targets[0], ast.Tuple) and isinstance(s.value, ast.Tuple):
             for t, v in zip(s.targets[0].elts, s.value.elts):
@@ -149,10 +224,11 @@ class Walk:
                 self.flags.add("may-return")
 
 
-def dispatch_table(loop, opvar, lenvar, refv, qv, extra=()):
+def dispatch_table(loop, opvar, lenvar, refv, qv, extra=(), tables=None):
     table = {}
     for k in range(0, 10):
         w = Walk(opvar, k, [refv, qv] + list(extra))
+        w.tables = tables or {}
         w.run(loop.body)
         dr = dict(w.state[refv])
         dq = dict(w.state[qv])
@@ -205,9 +281,19 @@ PREFIX_EXCEPTIONS = {
 }
 
 
+def _op_tables(fi):
+    """module-level dict literals keyed by operator codes: {name: {code: value node}}"""
+    out = {}
+    for st in fi.module.tree.body:
+        tgt = st.targets[0] if isinstance(st, ast.Assign) and len(st.targets) == 1 else (st.target if isinstance(st, ast.AnnAssign) and st.value is not None else None)
+        if isinstance(tgt, ast.Name) and isinstance(st.value, ast.Dict) and st.value.keys and all(isinstance(k_, ast.Constant) and isinstance(k_.value, int) for k_ in st.value.keys):
+            out[tgt.id] = {k_.value: v_ for k_, v_ in zip(st.value.keys, st.value.values)}
+    return out
+
+
 def r1(ctx):
     for name, fi, loop, opv, lenv, refv, qv, extra in walkers(ctx):
-        table = dispatch_table(loop, opv, lenv, refv, qv, extra)
+        table = dispatch_table(loop, opv, lenv, refv, qv, extra, tables=_op_tables(fi))
         for k in range(9):
             dr, dq, flags, unknown, rr, qq = table[k]
             want = SAM[k]
@@ -262,7 +348,7 @@ def r2(ctx):
                 bad.append(t)
         ctx.ob(fi.qual, "match-operators-treated-alike", not bad and n_tests >= 1, fi.loc(bad[0]) if bad else fi.loc(loop), "every test on the CIGAR operator gives the same answer for M, = and X (%d tests)" % n_tests if not bad else "the test `%s` distinguishes M from =/X: the same alignment written with =/X operators is handled differently" % u(bad[0]))
     for name, fi, loop, opv, lenv, refv, qv, extra in walkers(ctx):
-        table = dispatch_table(loop, opv, lenv, refv, qv, extra)
+        table = dispatch_table(loop, opv, lenv, refv, qv, extra, tables=_op_tables(fi))
         flags = table[9][2]
         ok = "reject" in flags
         ctx.ob(fi.qual, "unknown-operator-rejected", ok, fi.loc(loop), "an operator code outside 0..8 reaches raise / assert False" if ok else "an unknown operator code falls through the dispatch silently")
@@ -300,7 +386,7 @@ def r3(ctx):
     ctx.require(len(ys) >= 3, "expected at least three yields in _iterate_cigar")
     seen_regions = set()
     for y in ys:
-        ga = guard_atoms(cfg, cfg.node_of(y))
+        ga = guard_atoms(cfg, cfg.node_of(y)) | util.expanded_guard_atoms(cfg, it.node, cfg.node_of(y), keep=("v_position", "ref_pos", "length", "j", "n", "query_pos", "cigar_op", "i"))
         tup = [u(e) for e in y.value.value.elts]
         lfs = [linear(e) for e in y.value.value.elts]
         ops = _ops_of(ga)
@@ -442,12 +528,37 @@ def r4(ctx):
     # split conservation
     sl = ctx.func(RR + ".split_cigar_left")
     sr = ctx.func(RR + ".split_cigar_right")
-    yl = [u(n.value.value) for n in walk_function(sl.node) if isinstance(n, ast.Expr) and isinstance(n.value, ast.Yield)]
-    yr = [u(n.value.value) for n in walk_function(sr.node) if isinstance(n, ast.Expr) and isinstance(n.value, ast.Yield)]
-    ok = yl == ["(middle_op, consumed)", "cigar[j]"] and yr == ["(middle_op, middle_length - consumed)", "cigar[j]"]
-    fl = [n for n in walk_function(sl.node) if isinstance(n, ast.For)]
-    fr = [n for n in walk_function(sr.node) if isinstance(n, ast.For)]
-    ok = ok and len(fl) == 1 and u(fl[0].iter).replace(" ", "") == "range(i-1,-1,-1)" and len(fr) == 1 and u(fr[0].iter).replace(" ", "") == "range(i+1,len(cigar))"
+    def split_shape(f, side):
+        """(yields of the split operator, how the untouched elements are yielded) in a form independent of loop spelling"""
+        mids, rest = [], []
+        for n in walk_function(f.node):
+            if isinstance(n, ast.Expr) and isinstance(n.value, ast.Yield) and n.value.value is not None:
+                v = util.expand_single_defs(f.node, n.value.value, keep=("cigar", "i", "consumed", "middle_op", "middle_length"))
+                lp = n
+                while lp is not None and not isinstance(lp, ast.For):
+                    lp = getattr(lp, "parent", None)
+                if lp is not None and isinstance(v, ast.Subscript) and u(v.value) == "cigar" and u(v.slice) == u(lp.target):
+                    rest.append(u(lp.iter).replace(" ", ""))
+                elif lp is not None and isinstance(v, ast.Name) and v.id == u(lp.target):
+                    rest.append("each:" + u(lp.iter).replace(" ", ""))
+                else:
+                    mids.append(u(v))
+            elif isinstance(n, ast.Expr) and isinstance(n.value, ast.YieldFrom):
+                rest.append("each:" + u(n.value.value).replace(" ", ""))
+        return mids, rest
+
+    ml, rl_ = split_shape(sl, "left")
+    mr, rr_ = split_shape(sr, "right")
+    left_rest = ("range(i-1,-1,-1)", "each:reversed(cigar[:i])", "each:cigar[i-1::-1]", "each:cigar[:i][::-1]")
+    right_rest = ("range(i+1,len(cigar))", "each:cigar[i+1:]", "each:islice(cigar,i+1,None)")
+    ok = None
+    if ml and mr and rl_ and rr_:
+        ok = ml == ["(middle_op, consumed)"] and mr == ["(middle_op, middle_length - consumed)"] and len(rl_) == 1 and len(rr_) == 1
+        if ok and not (rl_[0] in left_rest and rr_[0] in right_rest):
+            ok = None if (rl_[0].startswith("each:") or rr_[0].startswith("each:")) and not (rl_[0] in left_rest or rr_[0] in right_rest) else False
+        # a left rest that is not reversed, or a right rest that starts at i, is a definite error
+        if rl_ and rl_[0] in ("each:cigar[:i]", "range(0,i)", "range(i)") or rr_ and rr_[0] in ("each:cigar[i:]", "range(i,len(cigar))"):
+            ok = False
     ctx.ob(sl.qual, "split-conserves-the-operator", ok, sl.loc(), "the split operator contributes `consumed` to the left and `length - consumed` to the right; all other operators go to exactly one side" if ok else "split_cigar_left/right no longer partition the CIGAR at (i, consumed)")
     # caller passes the yielded tuple through unchanged
     da = ctx.func(RR + ".detect_alleles_by_alignment")
@@ -520,7 +631,20 @@ def r5(ctx):
     da = ctx.func(RR + ".detect_alleles_by_alignment")
     dcfg = ctx.cfg(da)
     ys = [n for n in walk_function(da.node) if isinstance(n, ast.Expr) and isinstance(n.value, ast.Yield)]
-    ok = (None if not ys else (len(ys) == 1 and ("allele in range(num_alts + 1)", True) in guard_atoms(dcfg, dcfg.node_of(ys[0])) and u(util.single_def(da.node, "num_alts")) == "len(variants[index].get_alt_allele_list())"))
+    ok = None
+    if len(ys) == 1:
+        ga_y = util.resolved_guard_atoms(dcfg, da.node, dcfg.node_of(ys[0]), keep=("allele", "variants", "index"))
+        NA = "len(variants[index].get_alt_allele_list())"
+        form_a = ("allele in range(%s + 1)" % NA, True) in ga_y or ("allele in range(1 + %s)" % NA, True) in ga_y
+        nd_ = util.single_def(da.node, "num_alts")
+        if not form_a and nd_ is not None and u(nd_) == NA:
+            form_a = ("allele in range(num_alts + 1)", True) in ga_y or ("allele in range(1 + num_alts)", True) in ga_y
+        lower = any(a_ in ga_y for a_ in (("0 <= allele", True), ("allele < 0", False), ("-1 < allele", True)))
+        upper = any(a_ in ga_y for a_ in (("allele <= %s" % NA, True), ("%s < allele" % NA, False), ("allele < %s + 1" % NA, True), ("allele < 1 + %s" % NA, True)))
+        not_none = ("None is allele", False) in ga_y
+        ok = True if (form_a or (lower and upper and not_none)) else (False if not any("allele" in t_ for t_, _p in ga_y) else None)
+    elif ys:
+        ok = None
     ctx.ob(da.qual, "only-valid-allele-indices-yielded", ok, da.loc(ys[0]) if ys else da.loc(), "an allele is yielded only if it is one of 0..num_alts (None is dropped)" if ok else "the yield is not guarded by `allele in range(num_alts + 1)`")
 
 
